@@ -460,3 +460,55 @@ Section FE_R.
     Qed.
   End Dynamics.
 End FE_R.
+
+(* ================================================================== witnesses *)
+(* a P1 triangle with vertices (1,0), (0,1), (0,0) and the edge-midpoint rule: every premise of the theorems above holds *)
+Inductive three : Type := n0 | n1 | n2.
+Definition ex_q (N : list R) : @qpt R := mkQ (1 / 6) N [1; 0; -1] [0; 1; -1].
+Definition ex_elem : @elem R three := ([n0; n1; n2], [ex_q [1 / 2; 1 / 2; 0]; ex_q [0; 1 / 2; 1 / 2]; ex_q [1 / 2; 0; 1 / 2]]).
+Definition ex_mesh : list (@elem R three) := [ex_elem].
+Ltac ex_cases He Hq :=
+  destruct He as [<-|[]]; cbn [ex_elem snd fst] in Hq |- *; destruct Hq as [<-|[<-|[<-|[]]]]; cbn [ex_q qw qN qGx qGy length].
+Ltac sum_norm := repeat rewrite ?nsumR_cons, ?nsumR_nil, ?ndotR_cons, ?ndotR_nil_l.
+Lemma ex_mesh_premises :
+  weights_pos three ex_mesh /\ partition_of_unity three ex_mesh /\ grad_sums_zero three ex_mesh /\ unisolvent three ex_mesh /\
+  @fe_volume R NumR three ex_mesh = 1 / 2 /\
+  (exists u, 0 < @fe_stiff_form R NumR three 1 1 ex_mesh u u).
+Proof.
+  split; [|split; [|split; [|split; [|split]]]].
+  - intros e q He Hq. ex_cases He Hq; lra.
+  - intros e q He Hq. ex_cases He Hq; (split; [reflexivity|sum_norm; lra]).
+  - intros e q He Hq. ex_cases He Hq; (repeat split; try reflexivity; sum_norm; lra).
+  - intros v H.
+    assert (Q : forall c, v (n0, c) + v (n1, c) = 0 /\ v (n1, c) + v (n2, c) = 0 /\ v (n0, c) + v (n2, c) = 0).
+    { intros c.
+      pose proof (H ex_elem (ex_q [1 / 2; 1 / 2; 0]) (or_introl eq_refl) (or_introl eq_refl)) as H1.
+      pose proof (H ex_elem (ex_q [0; 1 / 2; 1 / 2]) (or_introl eq_refl) (or_intror (or_introl eq_refl))) as H2.
+      pose proof (H ex_elem (ex_q [1 / 2; 0; 1 / 2]) (or_introl eq_refl) (or_intror (or_intror (or_introl eq_refl)))) as H3.
+      unfold interp, gather in H1, H2, H3. cbn [ex_elem fst map ex_q qN] in H1, H2, H3.
+      repeat rewrite ?ndotR_cons, ?ndotR_nil_l in H1, H2, H3.
+      destruct c; [destruct H1 as [_ H1], H2 as [_ H2], H3 as [_ H3]|destruct H1 as [H1 _], H2 as [H2 _], H3 as [H3 _]]; repeat split; lra. }
+    apply functional_extensionality. intros [a c]. destruct (Q c) as (Q1 & Q2 & Q3).
+    unfold fzero, nzero, nZ. cbn [nconst NumR]. q2r. destruct a; lra.
+  - rewrite fe_volume_eq, fe_sum_eq. cbn [ex_mesh map]. unfold qsum. cbn [ex_elem snd map ex_q qw]. sum_norm. lra.
+  - exists (fun d => match d with (n0, false) => 1 | _ => 0 end).
+    rewrite stiff_form_eq, fe_sum_eq. cbn [ex_mesh map]. unfold qsum, stiff_integrand, grad2, gather. cbn [ex_elem snd fst map ex_q qw qGx qGy].
+    sum_norm. rewrite !cdot_closed. lra.
+Qed.
+
+(* without unisolvence the mass form is only semi-definite: two nodes, one quadrature point *)
+Definition ex2_mesh : list (@elem R bool) := [([false; true], [mkQ 1 [1 / 2; 1 / 2] [1; -1] [0; 0]])].
+Lemma fe_mass_not_definite_witness :
+  weights_pos bool ex2_mesh /\ partition_of_unity bool ex2_mesh /\ grad_sums_zero bool ex2_mesh /\
+  exists v : @nfield R bool, @fe_mass_form R NumR bool 1 ex2_mesh v v = 0 /\ v <> @fzero R NumR (@dof bool).
+Proof.
+  split; [|split; [|split]].
+  - intros e q [<-|[]] [<-|[]]. cbn [qw]. lra.
+  - intros e q [<-|[]] [<-|[]]. cbn [qN fst length]. split; [reflexivity|sum_norm; lra].
+  - intros e q [<-|[]] [<-|[]]. cbn [qGx qGy fst length]. repeat split; sum_norm; lra.
+  - exists (fun d : bool * bool => if fst d then -1 else 1). split.
+    + rewrite mass_form_eq, fe_sum_eq. cbn [ex2_mesh map]. unfold qsum, mass_integrand, interp, gather. cbn [snd fst map qw qN].
+      sum_norm. lra.
+    + intros H. apply (f_equal (fun f => f (false, false))) in H. cbn [fst] in H.
+      unfold fzero, nzero, nZ in H. cbn [nconst NumR] in H. q2r. lra.
+Qed.
